@@ -6,7 +6,12 @@ import HappyProofs.C19.MQLimit
 import HappyProofs.C19.MQReach
 import HappyProofs.C19.StreamLog
 import HappyProofs.C19.StreamGroup
+import HappyProofs.C19.StreamRead
+import HappyProofs.C19.StreamRetention
 import HappyProofs.C19.TopicOnce
+import HappyProofs.C19.WinProps
+import HappyProofs.C19.OutboxProps
+import HappyProofs.C19.IdemProps
 /-!
 # C19 — property theorems
 
@@ -131,6 +136,26 @@ theorem offsets_gap_free_increasing (cfg : SCfg) (hn : 0 < cfg.n) (sched : List 
 theorem key_partition_stable (cfg : SCfg) (sched : List (Nat × SAct)) (hh : HashFn sched) :
     jKeys [] (Stream.run cfg (Stream.init cfg.n) sched) = none :=
   HappyModel.C19.key_partition_stable cfg sched hh
+
+/-- a read returns exactly the retained suffix: every retention sweep leaves a contiguous run of
+    offsets ending at the newest record; a read of `p` from offset `o` with limit `m` returns the
+    retained records with offset ≥ `o`, in increasing offset order, the first `min(m, count)` — none
+    skipped, none below `o`, none expired; a poll returns that for the member's assigned partitions
+    (assignment order, shared limit) from the largest offsets it committed, so a member that
+    commits what it read never gets a record twice and never misses a retained one; the committed
+    offset shown by `consumer_lag` is the largest committed one -/
+theorem read_returns_retained_suffix (cfg : SCfg) (hn : 0 < cfg.n) (hc : cfg.legacyCommit = false)
+    (sched : List (Nat × SAct)) (ht : TimesMono sched) :
+    jReads cfg.n (RSt.init cfg.n) (Stream.run cfg (Stream.init cfg.n) sched) = none :=
+  HappyModel.C19.read_returns_retained_suffix cfg hn hc sched ht
+
+/-- a retention sweep keeps what its policy says: everything without a policy, the newest
+    `min(n, count)` records of every partition under size retention, exactly the records younger
+    than the maximum age under age retention -/
+theorem retention_keeps_policy (cfg : SCfg) (hn : 0 < cfg.n) (sched : List (Nat × SAct))
+    (ht : TimesMono sched) :
+    jRetention cfg.n cfg.ret (PSt.init cfg.n) (Stream.run cfg (Stream.init cfg.n) sched) = none :=
+  HappyModel.C19.retention_keeps_policy cfg hn sched ht
 
 /-! ## topic -/
 
